@@ -85,6 +85,8 @@ type IStore struct {
 	// Gate, if set, blocks before every call until the scheduler lets the
 	// calling operation proceed.
 	Gate func(op int, method string)
+	// Tap, if set, receives every finished call (independent of Record; used by the taint monitor).
+	Tap func(c Call)
 
 	invalidDev map[string]fosite.DeviceRequester
 
@@ -199,6 +201,9 @@ func (s *IStore) leave(c *Call, err error) {
 	s.mu.Lock()
 	if s.Record {
 		s.Calls = append(s.Calls, *c)
+	}
+	if s.Tap != nil {
+		s.Tap(*c)
 	}
 	if c.Write && c.Tx {
 		if err == nil {
